@@ -1,0 +1,12 @@
+//go:build !verif
+// +build !verif
+
+// Package verifhook provides yield points for the external verification harness.
+// With the build tag `verif` off every function here is an empty stub.
+package verifhook
+
+// Enabled reports whether the hooks are compiled in
+const Enabled = false
+
+// Point is a named yield point; it does nothing without the build tag `verif`
+func Point(name string, owner interface{}, arg interface{}) {}
